@@ -197,7 +197,7 @@ def run (args : List String) : String :=
     match parseVal rest with
     | some o =>
       let r := verifyPeerCertificate o.disabled o.D o.fps o.peer
-      s!"{showVerify r} rec={Wire.boolTok (recordedCertificate o.peer).isSome}"
+      s!"{showVerify r} rec={Wire.boolTok (recordedCertificate o.peer).isSome} chain=ok"
     | none => "bad-op"
   | ["gfp", _cert, d256] =>
     match Wire.bytesOfHex d256 with
@@ -264,8 +264,10 @@ def judge (args out : List String) : String :=
     | _, _ => "bad-judge"
   | "val" :: dis :: cert :: d0 :: d1 :: d2 :: d3 :: d4 :: d5 :: n :: rest =>
     match Wire.tokBool dis, [d0, d1, d2, d3, d4, d5].mapM Wire.bytesOfHex, n.toNat?.bind (parseFps · rest), out with
-    | some dis, some ds, some fps, [verdict, _rec] =>
-      if verdict == "ok" then
+    | some dis, some ds, some fps, [verdict, _rec, chain] =>
+      -- the verdict for a leaf must not depend on further certificates in the presented chain
+      if chain == "chain=bad" then "violated chain-certificate-accepted"
+      else if verdict == "ok" then
         if dis then "ok"   -- verification explicitly disabled: the property does not constrain the outcome
         else if !cert.startsWith "c" then "violated accepted-without-certificate"
         else if fps.any (fun f => entryMatches ds f.algorithm f.value) then "ok"
